@@ -350,6 +350,8 @@ def c14_nontrivial(op, impl):
     t = op.split(" ")
     if t[0] == "claims.enc":
         return ("enc", tuple(x != "~" for x in t[1].split(",")))
+    if t[0] == "o.json":
+        return ("json", t[1][:40], impl[:30])
     top = t[2]
     if top.startswith("X:"):
         return ("dec-raw", top)
@@ -367,6 +369,17 @@ def make_c14_oracle():
     def f(op, impl):
         r = c14_oracle(op, impl)
         t = op.split(" ")
+        if t[0] == "o.json" and impl.startswith("ok "):
+            kv = dict(x.split("=") for x in impl[3:].split(" "))
+            if kv["payload"] != kv["generic"] or (kv["footer"] != kv["generic"] and kv["empty"] == "0") or kv["same"] != "1":
+                return ("Json<T> as payload / footer is not transparent over serde_json on these bytes (serde_json accepts=%s, payload=%s, footer=%s)" % (kv["generic"], kv["payload"], kv["footer"]), "json/wrapper/transparent")
+            if kv["empty"] == "1" and kv["footer"] == "1":
+                return ("an empty footer was accepted by Json<T>", "json/wrapper/empty-footer")
+            if kv["claims"] != kv["claims_generic"]:
+                return ("RegisteredClaims as payload accepts / rejects other bytes than serde_json::from_slice::<RegisteredClaims> (payload=%s, serde_json=%s)" % (kv["claims"], kv["claims_generic"]), "json/claims/transparent")
+            if kv["enc_same"] != "1":
+                return ("Json<T> does not write what serde_json writes", "json/wrapper/encode")
+            return None
         if t[0] == "claims.dec" and t[2].startswith("O:"):
             ms = t[2][2:].split(";") if len(t[2]) > 2 else []
             keys = [unhex(m.split("=")[0]) for m in ms]
@@ -705,6 +718,8 @@ def c13_oracle(op, impl):
         if ids != want:
             return ("key id is not the PASERK digest of the id header and the key's PASERK text (text of %d characters)" % len(text), "%s/id/digest" % be)
         return None
+    if t[0] == "o.id.sib" and impl.startswith("ok ") and "agree=0" in impl:
+        return ("the two back ends of v%s accept the same key bytes but give it different ids / PASERK texts" % t[1], "v%s/id/siblings" % t[1])
     if t[0] == "o.id.eq" and impl != "ok same=1":
         return ("two encodings of one key give different ids", "%s/id/encoding" % be)
     if t[0] == "o.id.rel" and impl != "ok distinct=1":
@@ -810,7 +825,7 @@ def run_c16(ctx):
     nt = lambda o, i: (o.split(" ")[0], o.split(" ")[1], o.split(" ")[2].count(","), "!" in o.split(" ")[2], i[:6])
     ok = checklib.build_harness(ctx, cfg_rng=True)
     if ok:
-        run_stream(ctx, "scripted-rng", ["c16rng"], policy="okerr", oracle=c16_oracle, nontrivial=nt, pm=checklib.PM_RNG)
+        run_stream(ctx, "scripted-rng", ["c16rng"], policy="okerr", oracle=c16_oracle, nontrivial=nt, pm=checklib.PM_RNG, timeout=240 if ctx.tier != "thorough" else 1800)
     run_stream(ctx, "freshness", ["c16"], policy="okerr", oracle=c16_oracle,
                nontrivial=lambda o, i: (o.split(" ")[1], o.split(" ")[2]), heavy=True)
     ctx.cov["rule"] = ("(a) harness rebuilt with the getrandom custom backend: encrypt, PIE, PBKW, key sealing, key generation of v1-v4 under a scripted random source - output compared bit-for-bit with the model for the same answers, "
@@ -884,8 +899,11 @@ def run_c18(ctx):
             return ("a misuse program compiles: " + o, "%s/%s/compiles" % (t[2], t[1]))
         if pol and not acc:
             return ("a correct program is rejected by the compiler: " + o + " " + ",".join(codes), "%s/%s/rejected" % (t[2], t[1]))
-        if not acc and not (set(codes) & {"E0277", "E0599", "E0308", "E0616"}):
-            return ("rejected for an unexpected reason (%s): %s" % (",".join(codes), o), "%s/%s/other-error" % (t[2], t[1]))
+        # a misuse program must be rejected by the *type system* (any typing error will do: which one is the compiler's choice);
+        # a probe rejected only because a name does not resolve proves nothing and is a broken tie, not a violation
+        typing = {"E0277", "E0599", "E0308", "E0616", "E0271", "E0282", "E0283", "E0061", "E0603", "E0624", "E0107", "E0053"}
+        if not acc and not (set(codes) & typing):
+            ctx.k_broken.append({"kind": "probe-vacuous", "stream": "probes", "op": o, "detail": "rejected only with " + ",".join(codes)})
         return None
     run_stream(ctx, "probes", [], policy="full", oracle=oracle, ops="\n".join(ops) + "\n", impl_lines=impl_lines,
                nontrivial=lambda o, i: tuple(o.split(" ")[1:]))
